@@ -59,10 +59,25 @@ static void push(int** a, int* n, int* cap, int v)
   (*a)[(*n)++] = v;
 }
 
+// NULL-element mode (policy token d0z / d1z): elements are opaque void* and NULL is a legitimate one.  The first
+// key-0 element inserted while no NULL element is live is handed to the tree as the NULL pointer; elem[null_id]
+// is its shadow record.  Comparator, destroy callback and zix_tree_get results map NULL back to the shadow.
+static int null_mode;
+static int null_id = -1;
+
+static Elem* unnull(const void* p)
+{
+  return p ? (Elem*)p : (null_id >= 0 ? elem[null_id] : NULL);
+}
+
 static int compare(const void* a, const void* b, const void* ud)
 {
-  const Elem* ea = (const Elem*)a;
-  const Elem* eb = (const Elem*)b;
+  const Elem* ea = unnull(a);
+  const Elem* eb = unnull(b);
+  if (!ea || !eb) { // a NULL that is not the designated element
+    ud_bad = 1;
+    return 0;
+  }
 #ifdef C06_VERIFY_BUILD
   // cross-check build with tree.c's ZIX_TREE_VERIFY: verify() compares stored elements with each other
   if (ea != probe) {
@@ -82,7 +97,11 @@ static int compare(const void* a, const void* b, const void* ud)
 
 static void destroy(void* ptr, const void* ud)
 {
-  Elem* e = (Elem*)ptr;
+  Elem* e = unnull(ptr);
+  if (!e) { // destroy(NULL) while no NULL element is stored
+    ud_bad = 1;
+    return;
+  }
   if (dlog) {
     fprintf(dlog, "%sd%d@%s", n_dlist ? "," : "", e->id, (ud == &destroy_ud) ? "ok" : "bad");
   }
@@ -90,6 +109,10 @@ static void destroy(void* ptr, const void* ud)
     ud_bad = 1;
   }
   push(&dlist, &n_dlist, &cap_dlist, e->id);
+  if (!ptr) {
+    elem[null_id] = NULL;
+    null_id       = -1;
+  }
   free(e);
 }
 
@@ -143,9 +166,15 @@ static int cmp_int(const void* a, const void* b)
   return (x < y) ? -1 : (x > y);
 }
 
+// the element behind a non-null iterator (NULL pointer = the designated element)
+static Elem* elem_of(ZixTreeIter* it)
+{
+  return it ? unnull(zix_tree_get(it)) : NULL;
+}
+
 static int id_of(ZixTreeIter* it)
 {
-  Elem* e = (Elem*)zix_tree_get(it);
+  Elem* e = elem_of(it);
   return e ? e->id : -1;
 }
 
@@ -223,7 +252,7 @@ static int steer(int id)
   n_cmplog        = 0;
   const ZixStatus s = zix_tree_find(tree, &p, &ti);
   steer_target      = -1;
-  return s == ZIX_STATUS_SUCCESS && ti == iter[id] && zix_tree_get(ti) == elem[id];
+  return s == ZIX_STATUS_SUCCESS && ti == iter[id] && elem_of(ti) == elem[id];
 }
 
 static void do_walk(FILE* o, FILE* s)
@@ -316,7 +345,9 @@ int main(void)
     FILE*  s = open_memstream(&sbuf, &sn);
     char*  save = NULL;
     char*  tok  = strtok_r(line, " ", &save);
-    const int dup = tok && !strcmp(tok, "d1");
+    const int dup = tok && tok[0] == 'd' && tok[1] == '1';
+    null_mode     = tok && strchr(tok, 'z') != NULL;
+    null_id       = -1;
     n_ids = 0;
     ud_bad = 0;
     steer_target = -1;
@@ -352,7 +383,11 @@ int main(void)
         probe     = e;
         n_cmplog  = 0;
         fail_next = (c == 'I');
-        const ZixStatus st = zix_tree_insert(tree, e, &ti);
+        const int as_null = null_mode && arg == 0 && null_id < 0;
+        if (as_null) {
+          null_id = id;
+        }
+        const ZixStatus st = zix_tree_insert(tree, as_null ? NULL : e, &ti);
         fail_next = 0;
         const char* sname = st == ZIX_STATUS_SUCCESS  ? "OK"
                             : st == ZIX_STATUS_EXISTS ? "EXISTS"
@@ -372,6 +407,9 @@ int main(void)
         } else {
           free(e);
           elem[id] = NULL;
+          if (as_null) {
+            null_id = -1;
+          }
         }
         do_sweep(s);
       } else if (c == 'r') {
@@ -412,6 +450,10 @@ int main(void)
         fclose(dlog);
         dlog      = NULL;
         iter[arg] = NULL;
+        if (arg == null_id) { // destroy was not called for the NULL element: release its shadow record ourselves
+          free(elem[arg]);
+          null_id = -1;
+        }
         elem[arg] = NULL; // freed by destroy (if it was called)
         fprintf(o, "r:%s:%s:s%zu", st == ZIX_STATUS_SUCCESS ? "OK" : zix_strerror(st), dbuf, zix_tree_size(tree));
         fprintf(s, "k%d%s", cls, is_root ? "R" : "");
@@ -428,7 +470,7 @@ int main(void)
         const ZixStatus st = zix_tree_find(tree, &p, &ti);
         const char* sname = st == ZIX_STATUS_SUCCESS ? "OK" : st == ZIX_STATUS_NOT_FOUND ? "NOTFOUND" : zix_strerror(st);
         if (ti) {
-          Elem* e = (Elem*)zix_tree_get(ti);
+          Elem* e = elem_of(ti);
           fprintf(o, "f:%s:%d:s%zu", sname, e->key, zix_tree_size(tree));
           fprintf(s, "%d:c", (iter[e->id] == ti) ? e->id : -3);
         } else {
@@ -442,8 +484,13 @@ int main(void)
         if (arg < 0 || arg >= n_ids || !iter[arg]) {
           fputs("g:skip", o);
         } else {
-          Elem* e = (Elem*)zix_tree_get(iter[arg]);
-          fprintf(o, "g:%d.%d", e->key, e->id);
+          void* const raw = zix_tree_get(iter[arg]);
+          Elem*       e   = unnull(raw);
+          if ((raw == NULL) != (arg == null_id) || !e) { // zix_tree_get must hand back exactly the stored pointer
+            fputs("g:BADPTR", o);
+          } else {
+            fprintf(o, "g:%d.%d", e->key, e->id);
+          }
         }
         fputs("-", s);
       } else if (c == 'n' || c == 'p') {
@@ -457,7 +504,7 @@ int main(void)
             fprintf(o, "%c:ok", c);
             fputs("-", s);
           } else {
-            Elem* e  = (Elem*)zix_tree_get(r);
+            Elem* e  = elem_of(r);
             int   ok = (c == 'n') ? (e->key >= elem[arg]->key) : (e->key <= elem[arg]->key);
             fprintf(o, "%c:%s", c, ok ? "ok" : "BAD");
             fprintf(s, "%d", e->id);
@@ -485,6 +532,11 @@ int main(void)
     putdots(s, dlist, n_dlist);
     if (n_dlist) {
       qsort(dlist, (size_t)n_dlist, sizeof(int), cmp_int);
+    }
+    if (null_id >= 0) { // the NULL element was never destroyed: release its shadow record ourselves
+      free(elem[null_id]);
+      elem[null_id] = NULL;
+      null_id       = -1;
     }
     fprintf(o, "end:s%zu:free=", fsize);
     putdots(o, dlist, n_dlist);
